@@ -10,7 +10,7 @@ TRUSTED = [
     "rrule(**kwargs) itself is C01's constructor; 'same kwargs => same occurrences' is determinism of C01's model",
     "TZID resolution (the pre-scan, the name table, the parameter loop of _parse_date_value, the zone attach) and the unfold loop are re-translated from source on every run (harness/translate_str.py -> Generated/RRuleStrKernels.lean) and tied to the hand model by gen_prefix_eq_model / gen_unfold_loop_eq_model / gen_dateParms_eq_model; the translation is run (ops rrsgen.*) against the very statements it was made from, compiled from the same AST nodes",
     "Model/StrPy.lean's regular expressions are a deterministic matcher for three item shapes; the translator accepts a pattern only when Python's backtracking matcher cannot differ from it (optional character followed by a different literal; [^..]+ followed by a class it excludes), parsed with Python's own re parser; what ignoretz / tzinfos do inside parser.parse is C02",
-    "str_roundtrip_rule takes the two date values over unchanged (backArgs): parser.parse reading the compact text back is C02, tied by correspondence and oracle only; compact_roundtrip is about the driver's display helper",
+    "str_roundtrip_rule* / str_roundtrip_occurrences take the two date values over unchanged (backArgs / backArgsNaive); that parser.parse reads the compact text back as that naive datetime is date_text_read_back (C02's parser model and its parse_compact); the parser model's tie to the real parser.parse is C02's correspondence; compact_roundtrip is about the driver's display helper",
     "RDATE/EXDATE/DTSTART line dispatch is hand-modelled (correspondence); multi_line_builds_set is for parameter-less lines joined by newlines without unfold; unfold_fold is about the unfold path",
 ]
 ASSUMPTIONS = [
@@ -1251,7 +1251,8 @@ def oracle_fold_space(ctx):
     first physical line (must work: unfold_fold) and in a continuation line (known finding D-C13-fold-after-space)"""
     from dateutil import rrule as R
     rng = ctx.subrng("oracle-foldspace")
-    for _ in range(ctx.budget(60, 1500)):
+    explained = 0
+    for _ in range(ctx.budget(60, 600)):
         if ctx.escalated and ctx.unknown_violations() >= 5:
             break
         freq, ds, kw = gen_kwargs(rng, small_years=False)
@@ -1278,6 +1279,9 @@ def oracle_fold_space(ctx):
         brk = rng.choice(["\n", "\r\n"])
         text = pieces[0] + "".join(brk + " " + p for p in pieces[1:]) + brk + rest
         lost = any(p.endswith(" ") for p in pieces[1:])
+        if lost and explained >= 40:
+            ctx.count("fold_space_lost_not_resampled"); continue      # the listed class has been sampled enough (each case costs a driver call)
+        explained += int(lost)
         case = {"kind": "fold-space", "text": text, "tzid": name, "continuation_piece_ends_in_space": lost,
                 "kwargs": repr(kw), "freq": freq, "dtstart": ds.isoformat()}
         ctx.case((text, "fold-space")); ctx.count("fold_space_lost" if lost else "fold_space_kept")
